@@ -99,6 +99,33 @@ Theorem C09_no_server_byte : forall dh gcm_open,
 Proof. exact dispatch_no_server_byte. Qed.
 Print Assumptions C09_no_server_byte.
 
+(* Exactly one outcome per connection: it is relayed to the redirect target (then with prefix ++ rest = the whole
+   stream) or answered by the server itself, never both; it is relayed exactly when the first packet was read and
+   the decision is a Redirect (parse, replay, decryption, window, encryption byte, PROXY METHOD, UID) or when
+   readFirstPacket failed with its redirect flag set. *)
+Theorem C09_one_outcome : forall dh gcm_open,
+  (forall k n ct aad pt, gcm_open k n ct aad = Some pt -> (length pt + 16 = length ct)%nat) ->
+  forall (http_hidden : list N -> option (list N)) (s : list N) (e : ending) (st : server_state) (now : Z),
+  let r := rfp s e in
+  let o := dispatch_conn dh gcm_open http_hidden s e st now in
+  (relays o = true -> server_writes o = false) /\ (server_writes o = true -> relays o = false) /\
+  (relays o = true <->
+     (r_err r = RNone /\ exists why, decide dh gcm_open (packet_of http_hidden r) st now = Redirect why) \/
+     (r_err r <> RNone /\ r_redir r = true)) /\
+  (relays o = true -> o = OWeb (first_data r) (r_rest r) /\ first_data r ++ r_rest r = s).
+Proof. exact one_outcome. Qed.
+Print Assumptions C09_one_outcome.
+
+(* a valid credential naming a proxy method the server does not serve is web traffic, nothing else *)
+Theorem C09_unknown_method_is_web : forall dh gcm_open,
+  (forall k n ct aad pt, gcm_open k n ct aad = Some pt -> (length pt + 16 = length ct)%nat) ->
+  forall p st now ci,
+  auth_first_packet dh gcm_open p st now = DOk ci -> known_enc (ci_enc ci) = true -> is_admin st ci = false ->
+  ~ In (ci_method ci) (st_proxyBook st) ->
+  decide dh gcm_open p st now = Redirect RMethod.
+Proof. exact unknown_method_is_web. Qed.
+Print Assumptions C09_unknown_method_is_web.
+
 (* and the relay itself only ever passes the other side's bytes on; a failed dial / first write closes the peer *)
 Theorem C09_relay_bytes : forall data rest e d t,
   let w := goweb data rest e d t in
